@@ -5,6 +5,7 @@ package discovery
 import (
 	"context"
 	"net"
+	"time"
 )
 
 // VerifRead runs the unexported packet reader on conn (blocks until conn is closed).
@@ -24,4 +25,18 @@ func (r *MDNS) VerifDump() (names, addrs map[string][]string) {
 		addrs[k] = append([]string{}, v.values...)
 	}
 	return
+}
+
+// VerifAge lets d of quiet time pass: every entry of both tables was last updated d earlier.
+func (r *MDNS) VerifAge(d time.Duration) {
+	r.mu.Lock()
+	defer r.mu.Unlock()
+	for k, v := range r.names {
+		v.lastUpdate = v.lastUpdate.Add(-d)
+		r.names[k] = v
+	}
+	for k, v := range r.addrs {
+		v.lastUpdate = v.lastUpdate.Add(-d)
+		r.addrs[k] = v
+	}
 }
